@@ -5,7 +5,7 @@
    l1of o / l2of o = sparsity / ridge coefficient (0 when None), qp_f / qp_grad (Base/RSum.v) the
    penalised objective  v'Gv/2 - b'v + l1 sum v + l2 sum v^2  and its gradient. *)
 From Coq Require Import List Arith Reals Lra QArith Qabs.
-From TLV Require Import Base.Ops Base.Tensor Base.RSum Model.Nnls Model.NnlsEntry Proofs.NnlsProofs Proofs.NnlsProofsDescent Proofs.NnlsProofsNz Proofs.NnlsProofsAdmm Proofs.NnlsProofsFista Proofs.NnlsProofsFista2 Proofs.NnlsProofsAset Proofs.NnlsProofsAsetCert Proofs.NnlsProofsAsetFull Proofs.NnlsProofsExamples Proofs.NnlsProofsConv Proofs.NnlsProofsStep Proofs.NnlsProofsEntry.
+From TLV Require Import Base.Ops Base.Tensor Base.RSum Model.Nnls Model.NnlsEntry Proofs.NnlsProofs Proofs.NnlsProofsDescent Proofs.NnlsProofsNz Proofs.NnlsProofsAdmm Proofs.NnlsProofsFista Proofs.NnlsProofsFista2 Proofs.NnlsProofsAset Proofs.NnlsProofsAsetCert Proofs.NnlsProofsAsetFull Proofs.NnlsProofsExamples Proofs.NnlsProofsConv Proofs.NnlsProofsStep Proofs.NnlsProofsEntry Proofs.NnlsProofsGap Proofs.NnlsProofsTol0 Proofs.NnlsProofsAsetRnd Proofs.NnlsProofsUnique Proofs.NnlsProofsLimit Proofs.NnlsProofsFistaRate.
 Import ListNotations.
 Open Scope R_scope.
 
@@ -175,6 +175,31 @@ Theorem C13_kkt_optimal : forall (n : nat) (G : nat -> nat -> R) (b : nat -> R) 
 Proof. exact kkt_optimal. Qed.
 Print Assumptions C13_kkt_optimal.
 
+(* UNIQUENESS (round 5): for a well-conditioned problem -- the penalised form d'Gd/2 + ridge d'd positive definite -- two KKT
+   points coincide, so "the same objective value as a reference solver" is "the same SOLUTION" *)
+Theorem C13_kkt_unique : forall (n : nat) (G : nat -> nat -> R) (b : nat -> R) (l1 l2 : R) (x z : nat -> R),
+  (forall i j, G i j = G j i) ->
+  (forall d : nat -> R, (exists i, (i < n)%nat /\ d i <> 0) -> 0 < quad n G d / 2 + l2 * rsum n (fun i => (d i)^2)) ->
+  (forall i, (i < n)%nat -> 0 <= x i /\ 0 <= qp_grad n G b l1 l2 x i /\ x i * qp_grad n G b l1 l2 x i = 0) ->
+  (forall i, (i < n)%nat -> 0 <= z i /\ 0 <= qp_grad n G b l1 l2 z i /\ z i * qp_grad n G b l1 l2 z i = 0) ->
+  forall i, (i < n)%nat -> x i = z i.
+Proof. exact kkt_unique. Qed.
+Print Assumptions C13_kkt_unique.
+
+(* ... hence a fixed point of the HALS pass and a fixed point of the FISTA step (epsilon = 0, same penalties) are the same matrix *)
+Theorem C13_hals_fista_fixed_points_agree : forall (UtM UtU : list (list R)) (r n : nat) (o : @hopts R) (lr : R) (V W : list (list R)),
+  wfm r r UtU -> wfm r n UtM -> h_nz o = false -> h_eps o = 0 -> 0 < lr ->
+  (forall i j, Gf UtU i j = Gf UtU j i) ->
+  (forall d : nat -> R, (exists i, (i < r)%nat /\ d i <> 0) -> 0 < quad r (Gf UtU) d / 2 + l2of o * rsum r (fun i => (d i)^2)) ->
+  (forall k, (k < r)%nat -> Gf UtU k k <> 0 /\ 0 < Gf UtU k k + 2 * l2of o) ->
+  wfm r n V -> wfm r n W ->
+  hals_pass Rops UtM UtU n o V = V -> fista_new Rops UtM UtU n true (l1of o) (l2of o) lr 0 W = W -> V = W.
+Proof. exact hals_fista_fixed_points_agree. Qed.
+Print Assumptions C13_hals_fista_fixed_points_agree.
+Example C13_positive_definite_satisfiable : forall d : nat -> R, (exists i, (i < 2)%nat /\ d i <> 0) ->
+  0 < quad 2 (Gf ex_UtU) d / 2 + l2of ex_o * rsum 2 (fun i => (d i)^2).
+Proof. exact ex_pd. Qed.
+
 (* (iii)+(iv) a fixed point of the HALS pass (epsilon = 0) attains the minimum of every column's objective,
    hence the same objective value as any other minimiser (e.g. a reference solver's) *)
 Theorem C13_hals_fixed_point_optimal : forall (UtM UtU : list (list R)) (r n : nat) (o : @hopts R),
@@ -312,7 +337,93 @@ Theorem C13_hals_best_iterate_kkt_rate : forall (UtM UtU : list (list R)) (r n :
 Proof. exact best_iterate_kkt. Qed.
 Print Assumptions C13_hals_best_iterate_kkt_rate.
 
-(* non-vacuity of the hypotheses of the four theorems above beyond C13_hals_hypotheses_satisfiable: the optimum of the
+(* THE LIMIT STATEMENT for the iterates themselves (round 5): from a feasible start the weighted squared steps tend to zero
+   (completeness of R: a non-negative series with bounded partial sums has terms tending to zero), hence the KKT residual
+   bounds of the iterates tend to zero: for every eps > 0 there is N such that EVERY iterate beyond N -- W = iterate m+1,
+   V' = iterate m, m >= N -- is non-negative with gradient >= -D, |W g| <= W D and w D^2 <= (sum_l UtU[k,l]^2) eps. *)
+Theorem C13_hals_kkt_residuals_tend_to_zero : forall (UtM UtU : list (list R)) (r n : nat) (o : @hopts R),
+  wfm r r UtU -> wfm r n UtM -> h_nz o = false ->
+  (forall i j, Gf UtU i j = Gf UtU j i) ->
+  (forall k, (k < r)%nat -> Gf UtU k k <> 0 -> 0 < Gf UtU k k + 2 * l2of o) ->
+  (forall k, (k < r)%nat -> Gf UtU k k <> 0) ->
+  h_eps o = 0 -> 0 <= l2of o -> (forall d, 0 <= quad r (Gf UtU) d) ->
+  forall X : list (list R),
+  (forall k j, (k < r)%nat -> (j < n)%nat ->
+     0 <= mget Rops X k j /\ 0 <= qp_grad r (Gf UtU) (bf UtM j) (l1of o) (l2of o) (colf X j) k /\
+     mget Rops X k j * qp_grad r (Gf UtU) (bf UtM j) (l1of o) (l2of o) (colf X j) k = 0) ->
+  forall w : R, 0 < w -> (forall l, (l < r)%nat -> w <= Gf UtU l l / 2 + l2of o) ->
+  forall V : list (list R), wfm r n V -> (forall i j, (i < r)%nat -> (j < n)%nat -> h_eps o <= mget Rops V i j) ->
+  forall eps, 0 < eps -> exists N, forall m, (N <= m)%nat ->
+    let V' := iterl m (hals_pass Rops UtM UtU n o) V in let Wm := iterl (S m) (hals_pass Rops UtM UtU n o) V in
+    forall k j, (k < r)%nat -> (j < n)%nat ->
+      let g := qp_grad r (Gf UtU) (bf UtM j) (l1of o) (l2of o) (colf Wm j) k in
+      let D := rsum r (fun l => Rabs (Gf UtU k l) * Rabs (mget Rops Wm l j - mget Rops V' l j)) in
+      0 <= mget Rops Wm k j /\ - D <= g /\ Rabs (mget Rops Wm k j * g) <= mget Rops Wm k j * D /\
+      w * D ^ 2 <= rsum r (fun l => Gf UtU k l ^ 2) * eps.
+Proof. exact kkt_residuals_tend_to_zero. Qed.
+Print Assumptions C13_hals_kkt_residuals_tend_to_zero.
+
+(* ... stated for the FUNCTION: hals_nnls with tol = 0 and n_iter_max = m + 1 from a feasible warm start returns a non-negative
+   matrix whose KKT residuals are bounded by some D >= 0 with w D^2 <= (sum_l UtU[k,l]^2) eps, for every budget beyond
+   N(eps): "run to convergence, hals_nnls returns a KKT point" as a limit over the budget.  (No rate for the last iterate:
+   N(eps) comes from completeness, not from a formula; the rate theorem above is about the best iterate.) *)
+Theorem C13_hals_nnls_converges_to_kkt : forall (UtM UtU : list (list R)) (r n : nat) (o : @hopts R),
+  wfm r r UtU -> wfm r n UtM -> h_nz o = false ->
+  (forall i j, Gf UtU i j = Gf UtU j i) ->
+  (forall k, (k < r)%nat -> Gf UtU k k <> 0 -> 0 < Gf UtU k k + 2 * l2of o) ->
+  (forall k, (k < r)%nat -> Gf UtU k k <> 0) ->
+  h_eps o = 0 -> 0 <= l2of o -> (forall d, 0 <= quad r (Gf UtU) d) ->
+  forall X : list (list R),
+  (forall k j, (k < r)%nat -> (j < n)%nat ->
+     0 <= mget Rops X k j /\ 0 <= qp_grad r (Gf UtU) (bf UtM j) (l1of o) (l2of o) (colf X j) k /\
+     mget Rops X k j * qp_grad r (Gf UtU) (bf UtM j) (l1of o) (l2of o) (colf X j) k = 0) ->
+  forall w : R, 0 < w -> (forall l, (l < r)%nat -> w <= Gf UtU l l / 2 + l2of o) ->
+  forall V : list (list R), wfm r n V -> (forall i j, (i < r)%nat -> (j < n)%nat -> h_eps o <= mget Rops V i j) ->
+  forall eps, 0 < eps -> exists N, forall m, (N <= m)%nat ->
+    exists Wm, hals_nnls Rops UtM UtU n (Some V) [] (S m) 0 o = Ok Wm /\
+    forall k j, (k < r)%nat -> (j < n)%nat ->
+      let g := qp_grad r (Gf UtU) (bf UtM j) (l1of o) (l2of o) (colf Wm j) k in
+      exists D, 0 <= D /\ 0 <= mget Rops Wm k j /\ - D <= g /\ Rabs (mget Rops Wm k j * g) <= mget Rops Wm k j * D /\
+                w * D ^ 2 <= rsum r (fun l => Gf UtU k l ^ 2) * eps.
+Proof. exact hals_nnls_converges_to_kkt. Qed.
+Print Assumptions C13_hals_nnls_converges_to_kkt.
+
+(* APPROXIMATE KKT => NEAR-OPTIMAL OBJECTIVE (the clause "hence attain the same objective value as a reference solver",
+   quantitatively): UtU symmetric PSD, ridge >= 0; a point w with gradient >= -d_i and complementarity |w_i g_i| <= c_i has
+   objective at most sum_i (c_i + d_i z_i) above that of ANY non-negative z -- in particular above the minimum, or a
+   reference solver's value.  (What the Python predicates measure -- KKT residuals of a returned point -- bounds its
+   objective gap.) *)
+Theorem C13_approx_kkt_objective_gap : forall (n : nat) (G : nat -> nat -> R) (b : nat -> R) (l1 l2 : R) (w z c d : nat -> R),
+  (forall i j, G i j = G j i) -> (forall e, 0 <= quad n G e) -> 0 <= l2 ->
+  (forall i, (i < n)%nat -> 0 <= z i) ->
+  (forall i, (i < n)%nat -> - d i <= qp_grad n G b l1 l2 w i /\ Rabs (w i * qp_grad n G b l1 l2 w i) <= c i) ->
+  qp_f n G b l1 l2 w - qp_f n G b l1 l2 z <= rsum n (fun i => c i + d i * z i).
+Proof. exact approx_kkt_objective_gap. Qed.
+Print Assumptions C13_approx_kkt_objective_gap.
+
+(* ... for the HALS pass (epsilon = 0): the objective of column j at W = pass(V) exceeds that of any z >= 0 by at most
+   sum_k D_k (W[k,j] + z_k), D_k = sum_l |UtU[k,l]| |W[l,j] - V[l,j]|: a small step means a small objective gap *)
+Theorem C13_hals_pass_objective_gap : forall (UtM UtU : list (list R)) (r n : nat) (o : @hopts R),
+  wfm r r UtU -> wfm r n UtM -> h_nz o = false ->
+  (forall i j, Gf UtU i j = Gf UtU j i) -> (forall e, 0 <= quad r (Gf UtU) e) -> 0 <= l2of o ->
+  (forall k, (k < r)%nat -> Gf UtU k k <> 0 -> 0 < Gf UtU k k + 2 * l2of o) ->
+  (forall k, (k < r)%nat -> Gf UtU k k <> 0) -> h_eps o = 0 ->
+  forall (V : list (list R)) (j : nat) (z : nat -> R), wfm r n V -> (j < n)%nat -> (forall i, (i < r)%nat -> 0 <= z i) ->
+  let W := hals_pass Rops UtM UtU n o V in
+  qp_f r (Gf UtU) (bf UtM j) (l1of o) (l2of o) (colf W j) - qp_f r (Gf UtU) (bf UtM j) (l1of o) (l2of o) z
+  <= rsum r (fun k => rsum r (fun l => Rabs (Gf UtU k l) * Rabs (mget Rops W l j - mget Rops V l j)) * (mget Rops W k j + z k)).
+Proof. exact pass_objective_gap. Qed.
+Print Assumptions C13_hals_pass_objective_gap.
+
+(* tol = 0 (the protocol under which the harness runs hals_nnls to convergence; exact=True up to its 1e-16): the per-pass
+   error is a sum of squares, the rule `rec_error < tol * rec_error0` never fires and the loop performs exactly n_iter_max
+   passes -- any nonzero_rows setting *)
+Theorem C13_hals_tol0_runs_all : forall (UtM UtU : list (list R)) (n : nat) (o : @hopts R) (fuel : nat) (first : bool) (err0 : R) (V : list (list R)),
+  hals_loop Rops UtM UtU n o 0 fuel first err0 V = iterl fuel (hals_pass Rops UtM UtU n o) V.
+Proof. exact hals_tol0_runs_all. Qed.
+Print Assumptions C13_hals_tol0_runs_all.
+
+(* non-vacuity of the hypotheses of the rate / gap theorems above beyond C13_hals_hypotheses_satisfiable: the optimum of the
    2 x 1 example in the form used here, the weight bound w = 1, and a feasible start (zero) that is NOT a fixed point *)
 Example C13_hals_rate_hypotheses_satisfiable :
   (forall k j, (k < 2)%nat -> (j < 1)%nat ->
@@ -433,8 +544,8 @@ Print Assumptions C13_fista_trace_is_loop.
 (* DESCENT of the projected gradient step (round 5): when the step is at most 1/L -- lr (d'UtU d + 2 ridge d'd) <= d'd for every
    direction d -- the step x_new = max(x - lr gradient, eps) from a point with column j feasible lowers that column's penalised
    objective by at least |x_new - x|^2 / (2 lr).  The first iteration of fista is this step (momentum_old = 1), so
-   fista(n_iter_max = 1) never increases the objective.  Nothing of the kind holds for the later, extrapolated iterations
-   (FISTA is not a descent method); nothing is proved about them beyond the bound >= epsilon. *)
+   fista(n_iter_max = 1) never increases the objective.  The later, extrapolated iterations are not monotone (FISTA is not a
+   descent method); for them see the rate theorem C13_fista_rate below. *)
 Theorem C13_fista_step_descent : forall (UtM UtU : list (list R)) (r n : nat) (sp rd lr eps : R),
   wfm r r UtU -> wfm r n UtM -> (forall i j, Gf UtU i j = Gf UtU j i) -> 0 < lr ->
   (forall d : nat -> R, lr * (quad r (Gf UtU) d + 2 * rd * rsum r (fun i => (d i)^2)) <= rsum r (fun i => (d i)^2)) ->
@@ -452,6 +563,48 @@ Theorem C13_fista_first_iteration_descent : forall (UtM UtU : list (list R)) (r 
   qp_f r (Gf UtU) (bf UtM j) sp rd (colf (fista Rops UtM UtU n true sp rd lr tol eps x0 [beta]) j) <= qp_f r (Gf UtU) (bf UtM j) sp rd (colf x0 j).
 Proof. exact fista_first_iteration_descent. Qed.
 Print Assumptions C13_fista_first_iteration_descent.
+
+(* THE O(1/K^2) RATE OF FISTA (Beck & Teboulle 2009, Thm 4.4) for the model's accelerated loop (round 5; induction over the
+   iterations with the Beck-Teboulle potential 2 lr t_k^2 (F(x_k) - F(s)) + |t_{k+1} x_update - (t_{k+1} - 1) x_k - s|^2).
+   Step lr <= 1/L (stated as before), UtU symmetric PSD, ridge >= 0, column j of the start feasible, ANY momentum sequence with
+   t_0 = 0, t_1 = 1, t_{k+1}^2 - t_{k+1} = t_k^2, t_{k+1} >= 1 (coefficients beta_k = (t_{k+1} - 1) / t_{k+2}: `beta_of t k`),
+   the loop run without its stopping rule (fista_run = fista with tol = 0, C13_fista_tol0_runs_all):
+       2 lr t_K^2 (F_j(x_K) - F_j(s)) <= |x_0[:,j] - s|^2     for EVERY feasible comparison point s. *)
+Theorem C13_fista_rate : forall (UtM UtU : list (list R)) (r n : nat) (sp rd lr eps : R) (j : nat),
+  wfm r r UtU -> wfm r n UtM -> (j < n)%nat -> (forall i k, Gf UtU i k = Gf UtU k i) -> (forall d, 0 <= quad r (Gf UtU) d) ->
+  0 <= rd -> 0 < lr ->
+  (forall d : nat -> R, lr * (quad r (Gf UtU) d + 2 * rd * rsum r (fun i => (d i)^2)) <= rsum r (fun i => (d i)^2)) ->
+  forall t : nat -> R, (forall k, t (S k) ^ 2 - t (S k) = t k ^ 2) -> (forall k, 1 <= t (S k)) ->
+  forall s : nat -> R, (forall i, (i < r)%nat -> eps <= s i) ->
+  forall (K : nat) (x0 : list (list R)), t 0%nat = 0 -> t 1%nat = 1 -> wfm r n x0 -> (forall i, (i < r)%nat -> eps <= mget Rops x0 i j) ->
+  2 * lr * t K ^ 2 * (qp_f r (Gf UtU) (bf UtM j) sp rd (colf (fista_run UtM UtU n true sp rd lr eps (map (beta_of t) (seq 0 K)) x0 x0) j)
+                      - qp_f r (Gf UtU) (bf UtM j) sp rd s)
+  <= rsum r (fun i => (mget Rops x0 i j - s i)^2).
+Proof. exact fista_rate. Qed.
+Print Assumptions C13_fista_rate.
+
+(* ... for the function `fista` itself with the CODE'S momentum sequence tseq (t_0 = 0, t_{k+1} = (1 + sqrt(1 + 4 t_k^2)) / 2, so
+   t_1 = 1 = momentum_old and beta_k = (momentum_old - 1) / momentum), tol = 0, epsilon = 0, against a KKT point X (the optimum):
+   after K >= 1 iterations the objective gap of column j is >= 0 and at most 2 |x_0 - X|^2 / (lr (K+1)^2)  (t_K >= (K+1)/2):
+   "run to convergence, fista attains the objective value of the reference solution", with a rate. *)
+Theorem C13_fista_rate_optimum : forall (UtM UtU : list (list R)) (r n : nat) (sp rd lr : R) (j : nat) (X : list (list R)) (K' : nat) (x0 : list (list R)),
+  wfm r r UtU -> wfm r n UtM -> (j < n)%nat -> (forall i k, Gf UtU i k = Gf UtU k i) -> (forall d, 0 <= quad r (Gf UtU) d) ->
+  0 <= rd -> 0 < lr ->
+  (forall d : nat -> R, lr * (quad r (Gf UtU) d + 2 * rd * rsum r (fun i => (d i)^2)) <= rsum r (fun i => (d i)^2)) ->
+  (forall i, (i < r)%nat -> 0 <= mget Rops X i j /\ 0 <= qp_grad r (Gf UtU) (bf UtM j) sp rd (colf X j) i /\
+                            mget Rops X i j * qp_grad r (Gf UtU) (bf UtM j) sp rd (colf X j) i = 0) ->
+  wfm r n x0 -> (forall i, (i < r)%nat -> 0 <= mget Rops x0 i j) ->
+  let K := S K' in
+  let xK := fista Rops UtM UtU n true sp rd lr 0 0 x0 (map (beta_of tseq) (seq 0 K)) in
+  let gap := qp_f r (Gf UtU) (bf UtM j) sp rd (colf xK j) - qp_f r (Gf UtU) (bf UtM j) sp rd (colf X j) in
+  0 <= gap /\ lr * (INR K + 1)^2 * gap <= 2 * rsum r (fun i => (mget Rops x0 i j - mget Rops X i j)^2).
+Proof. exact fista_rate_optimum. Qed.
+Print Assumptions C13_fista_rate_optimum.
+
+(* the code's momentum sequence meets the hypotheses of C13_fista_rate (non-vacuity of the sequence hypotheses) *)
+Example C13_fista_momentum_sequence : tseq 0 = 0 /\ tseq 1 = 1 /\
+  forall k, tseq (S k) ^ 2 - tseq (S k) = tseq k ^ 2 /\ 1 <= tseq (S k) /\ (INR (S k) + 1) / 2 <= tseq (S k).
+Proof. exact tseq_props. Qed.
 
 (* non-vacuity of the step-size hypothesis: UtU = [[2,1],[1,2]] (eigenvalues 1 and 3), ridge 0, lr = 1/3 = 1/L *)
 Example C13_fista_step_size_satisfiable : forall d : nat -> R,
@@ -490,6 +643,23 @@ Theorem C13_fista_returns_partial : forall (UtM UtU : list (list R)) (r n : nat)
     forall i j, (i < r)%nat -> (j < n)%nat -> eps <= mget Rops W i j.
 Proof. exact fista_call_some. Qed.
 Print Assumptions C13_fista_returns_partial.
+
+(* the DEFAULT step: when sigma bounds the Rayleigh quotient of UtU (contract of the recorded leading singular value; satisfiable:
+   Example below) the default step 1 / (sigma + 2 ridge) meets the step-size condition, so the all-default-step call with
+   n_iter_max = 1 from a start whose column j is feasible (x=None: zeros, epsilon <= 0) does not increase that column's objective *)
+Theorem C13_fista_default_step_descent : forall (UtM UtU : list (list R)) (r n : nat) (sp : option R) (rd sigma tol eps beta : R)
+  (x0 : option (list (list R))) (j : nat),
+  wfm r r UtU -> wfm r n UtM -> (forall i k, Gf UtU i k = Gf UtU k i) -> 0 < sigma + 2 * rd ->
+  (forall d : nat -> R, quad r (Gf UtU) d <= sigma * rsum r (fun i => (d i)^2)) ->
+  match x0 with Some x => wfm r n x /\ (forall i, (i < r)%nat -> eps <= mget Rops x i j) | None => eps <= 0 end -> (j < n)%nat ->
+  let spv := match sp with Some s => s | None => 0 end in
+  let start := match x0 with Some x => x | None => zeros_like Rops UtM end in
+  exists W, fista_call Rops UtM UtU n true sp (Some rd) None sigma tol eps x0 [beta] = Ok W /\
+    qp_f r (Gf UtU) (bf UtM j) spv rd (colf W j) <= qp_f r (Gf UtU) (bf UtM j) spv rd (colf start j).
+Proof. exact fista_call_default_step_descent. Qed.
+Print Assumptions C13_fista_default_step_descent.
+Example C13_fista_sigma_bound_satisfiable : forall d : nat -> R, quad 2 (Gf ex_UtU) d <= 3 * rsum 2 (fun i => (d i)^2).
+Proof. exact ex_sigma_bound. Qed.
 
 (* fista with a LIST [A, B] as UtU and a matrix unknown (the `isinstance(UtU, list)` branch; core update of
    non_negative_tucker_hals for an order-2 core): multi_mode_dot(x, [A, B]) = A x B^T, so the gradient entry is that of
@@ -554,6 +724,28 @@ Theorem C13_active_set_exit_kkt :
       (nth i p true = false -> nth i y 0 = 0 /\ nth i (gradient Rops Utm UtU y) 0 <= tol).
 Proof. exact active_set_exit_kkt_full. Qed.
 Print Assumptions C13_active_set_exit_kkt.
+
+(* FULL under a ROUNDED interpolation step (round 5; supersedes the hypothesis of the partial theorem below for the roundings
+   that matter): the same certificate for EVERY rounding function rnd of the step x + alpha (s - x) with rnd 0 = 0 and
+   rnd v >= 0 for v >= 0 (true of IEEE round-to-nearest; the identity is the exact-arithmetic instance above).  The
+   counting argument survives rounding because the code puts the coordinates attaining alpha exactly on the bound (dadc3ff),
+   coordinates off the passive set stay exactly 0 and the others stay >= 0.  tl.solve (with its contract), the ratio, alpha
+   and the gradient remain exact, as everywhere in the active-set theorems. *)
+Theorem C13_active_set_exit_kkt_rounded :
+  forall (solve : list (list R) -> list R -> option (list R)) (rnd : R -> R)
+         (Utm : list R) (UtU : list (list R)) (tol : R) (x0 : option (list R)) (n_iter_max : nat) (y : list R),
+  rnd 0 = 0 -> (forall v, 0 <= v -> 0 <= rnd v) ->
+  length UtU = length Utm -> (forall i, (i < length Utm)%nat -> length (nth i UtU []) = length Utm) ->
+  (forall A b ps, solve A b = Some ps -> Forall2 (fun row bi => dot Rops row ps = bi) A b) ->
+  match x0 with Some x => length x = length Utm /\ Forall (fun v => 0 <= v) x | None => True end ->
+  active_set_run Rops solve rnd Utm UtU tol x0 n_iter_max = Some (y, true) ->
+  exists p, length p = length Utm /\
+    forall i, (i < length Utm)%nat ->
+      0 <= nth i y 0 /\
+      (nth i p true = true -> nth i (gradient Rops Utm UtU y) 0 = 0) /\
+      (nth i p true = false -> nth i y 0 = 0 /\ nth i (gradient Rops Utm UtU y) 0 <= tol).
+Proof. exact active_set_exit_kkt_full_r. Qed.
+Print Assumptions C13_active_set_exit_kkt_rounded.
 
 (* PARTIAL (hypothesis named below): the same certificate under ANY rounding function of the interpolation step
    (floating point), for an abstract tl.solve satisfying its contract.  Whenever the loop is
